@@ -41,6 +41,31 @@ theorem gen_acyclic (rs : Array Rect) (bx b : Rat) (rank : Nat → Nat) (evs : L
   ⟨acyclic_of_mono (keyLt_irrefl _ rank) (keyLt_trans _ rank) (gen_key_increases rs bx b rank evs nl).1,
    acyclic_of_mono (keyLt_irrefl _ rank) (keyLt_trans _ rank) (gen_key_increases rs bx b rank evs nl).2⟩
 
+/-- Determinism: the generated constraint lists are functions of (rectangles, borders, rank, event
+    order) and depend on the rank only through the ORDER it induces.  Since CmpNodePos breaks ties
+    by variable id before looking at heap addresses, any two runs whose variable ids are distinct
+    use rank orders that agree (id order), so nothing else - no address - can influence the result:
+    two rank functions inducing the same order give identical constraint lists. -/
+theorem gen_deterministic_given_rank (rs : Array Rect) (bx b : Rat) (rank rank' : Nat → Nat)
+    (h : ∀ i j, rank i < rank j ↔ rank' i < rank' j) (evs : List Ev) (nl : Bool) :
+    generateYConstraints rs bx b rank evs = generateYConstraints rs bx b rank' evs ∧
+    generateXConstraints rs bx b rank evs nl = generateXConstraints rs bx b rank' evs nl := by
+  unfold generateYConstraints generateXConstraints
+  simp only [keyLt_congr _ h, and_self]
+
+/-- non-vacuity: id order and "id first, then any address" induce the same order when ids are
+    distinct, e.g. rank i = i and rank' i = 1000·i + (address mod 1000) -/
+example (addr : Nat → Nat) (evs : List Ev) (rs : Array Rect) :
+    generateYConstraints rs 0 0 id evs = generateYConstraints rs 0 0 (fun i => 1000 * i + addr i % 1000) evs :=
+  (gen_deterministic_given_rank rs 0 0 id (fun i => 1000 * i + addr i % 1000)
+    (fun i j => by
+      have hi := Nat.mod_lt (addr i) (by decide : 1000 > 0)
+      have hj := Nat.mod_lt (addr j) (by decide : 1000 > 0)
+      simp only [id]
+      by_cases hij : i = j
+      · subst hij; omega
+      · omega) evs false).1
+
 /-! ## (2) the y pass (and the x pass without neighbour lists) separates every meeting pair -/
 
 /-- generateYConstraints: for every pair of rectangles whose x-extents meet in the code's sense
@@ -75,6 +100,13 @@ theorem genx_separates (rs : Array Rect) (bx b : Rat) (rank : Nat → Nat) (inj 
     x i + ((rectAt rs i).width bx + (rectAt rs j).width bx) / 2 ≤ x j ∨
     x j + ((rectAt rs i).width bx + (rectAt rs j).width bx) / 2 ≤ x i :=
   scanPtr_separates inj hv hgood (by simpa [generateXConstraints] using hsat) hi hj hij hmeet
+
+/-- non-vacuity of `genx_separates`: the x sweep of the same two squares (constraint (0,1,gap 2),
+    placement x₀ = 0, x₁ = 2) -/
+example : exY 0 + ((rectAt exRs 0).width 0 + (rectAt exRs 1).width 0) / 2 ≤ exY 1 ∨
+          exY 1 + ((rectAt exRs 0).width 0 + (rectAt exRs 1).width 0) / 2 ≤ exY 0 :=
+  genx_separates exRs 0 0 id (fun _ _ h => h) exEvs exXValid exXGood exY exXSat 0 1 (by decide) (by decide)
+    (by decide) exXMeet
 
 /-- For every rectangle array and every border there IS a valid event order (the stable sort the
     driver uses), so the hypothesis `ValidOrder` of the separation theorems is never vacuous. -/
@@ -216,6 +248,13 @@ theorem separation_certificate_sound (ax : Axis) (n : Nat) (cs : List Con) (pos 
     (u v : Nat) (hu : u < n) (hv : v < n) (huv : u ≠ v) (hmeet : ScanMeet ax u v) :
     y u + (ax.sz u + ax.sz v) / 2 ≤ y v ∨ y v + (ax.sz u + ax.sz v) / 2 ≤ y u :=
   sepCert_sound h hsat hu hv huv hmeet
+
+/-- non-vacuity of `separation_certificate_sound`: the certificate (ordering witness = index,
+    reachability sets {1}, {}) for the constraint (0,1,gap 2) of the example is accepted -/
+example : exY 0 + ((yAxis exRs 0 0).sz 0 + (yAxis exRs 0 0).sz 1) / 2 ≤ exY 1 ∨
+          exY 1 + ((yAxis exRs 0 0).sz 0 + (yAxis exRs 0 0).sz 1) / 2 ≤ exY 0 :=
+  separation_certificate_sound (yAxis exRs 0 0) 2 [⟨0, 1, 2⟩] id #[2, 0] exCert exY
+    (by rw [← exCons]; exact exSat) 0 1 (by decide) (by decide) (by decide) exMeet
 
 theorem sizesKept_sound_complete (old new : Array Rect) :
     sizesKept old new 0 = true ↔ old.size = new.size ∧ ∀ i, i < old.size →
